@@ -23,7 +23,7 @@ import os
 import numpy as np
 
 from . import common
-from .c01 import SPECS, same, quiet, brief, query_variants, SKIP_QUERIES, skip_now
+from .c01 import SPECS, same, quiet, brief, query_variants, SKIP_QUERIES, skip_now, public_queries
 
 
 def snap(v):
@@ -49,6 +49,7 @@ def run(ctx):
                 "input preservation and public array-taking functions; distinct = distinct "
                 "(class, q1, q2) / (function, input); non-trivial = q2 returns an array or q1 != q2")
     ctx.proofs()
+    common.gen_arith("C01")       # class tables (mutator names) for the query discovery
     eff = json.load(open(os.path.join(common.LEAN, "Pyunicorn", "Generated", "StructC06.json")))
     ctx.extra["effect_summaries"] = {
         "in_table": len(eff["table"]), "all_inplace_statements": len(eff["all"]),
@@ -57,7 +58,11 @@ def run(ctx):
                        if r["verdict"] == "unrestored"]}
 
     reqs, impl = [], []
-    for cname, mk in SPECS.items():
+    tables = json.load(open(os.path.join(common.LEAN, "Pyunicorn", "Generated",
+                                         "StructC01.json")))["tables"] \
+        if os.path.exists(os.path.join(common.LEAN, "Pyunicorn", "Generated", "StructC01.json")) else {}
+    rounds = [(cname, mk, r) for cname, mk in SPECS.items() for r in range(2)]
+    for cname, mk, rnd in rounds:
         spec = mk()
         cls = spec["cls"]
         if spec.get("only_summary"):
@@ -75,7 +80,9 @@ def run(ctx):
                 elif isinstance(v, tuple) and v and isinstance(v[0], np.ndarray):
                     inputs[k] = v[0].copy()
         queries = []
-        for m in sorted(n for n in dir(cls) if hasattr(getattr(cls, n, None), "cache_info")):
+        cand = set(n for n in dir(cls) if hasattr(getattr(cls, n, None), "cache_info")) | \
+            public_queries(cls, tables.get(cname, {}))
+        for m in sorted(cand):
             if m in SKIP_QUERIES:
                 continue
             for kw in query_variants(cls, m, spec["argsets"]):
